@@ -1,7 +1,7 @@
 (* Extract.v -- extraction of the executable models (ExtrOcamlBasic only). *)
 From Coq Require Import List ZArith Bool.
-From SC Require Import Base Cfg Comb ModStr ModMem Dispatch.
+From SC Require Import Base Cfg Comb ModStr ModMem Dispatch HandlerModel.
 Require Extraction.
 Require Import ExtrOcamlBasic.
 Extraction Blacklist String List Nat.
-Extraction "model.ml" run_call cfg_default cfg_noslack mkCfg.
+Extraction "model.ml" run_call cfg_default cfg_noslack mkCfg run_hist h_init.
